@@ -48,14 +48,15 @@ SInit ==
   /\ sp = 0 /\ sc = 0 /\ pp = Len(pods) /\ cp = Len(ctrs)
   /\ acc = <<0, 0>> /\ calls = 0 /\ delivered = <<>> /\ sends = 0 /\ pc = "send" /\ emitted = FALSE
 
+\* a profile is emitted together with what the policy specified here makes of it
 Emit ==
-  /\ ~emitted /\ emitted' = TRUE
-  /\ PrintT(<<"CASE", ToJson([pods |-> pods, ctrs |-> ctrs])>>)
+  /\ ~emitted /\ pc \in {"ok", "fail"} /\ emitted' = TRUE
+  /\ PrintT(<<"CASE", ToJson([pods |-> pods, ctrs |-> ctrs, expect |-> pc])>>)
   /\ UNCHANGED <<pods, ctrs, sp, sc, pp, cp, acc, calls, delivered, sends, pc>>
 
 \* the message fits: transmitted, collected or delivered
 SendOK ==
-  /\ emitted /\ pc = "send" /\ MsgSize <= L
+  /\ pc = "send" /\ MsgSize <= L
   /\ sends' = sends + 1
   /\ IF More
      THEN /\ acc' = <<acc[1] + pp, acc[2] + cp>>
@@ -70,7 +71,7 @@ SendOK ==
 
 \* the message is too big: nothing is transmitted, shrink or give up
 Oversize ==
-  /\ emitted /\ pc = "send" /\ MsgSize > L
+  /\ pc = "send" /\ MsgSize > L
   /\ sends' = sends + 1
   /\ IF pp + cp <= MinObjs
      THEN pc' = "fail" /\ UNCHANGED <<pp, cp>>
@@ -93,6 +94,6 @@ CleanFailure == pc = "fail" => calls = 0
 \* giving up is legitimate only at the minimum chunk size
 JustifiedFailure == pc = "fail" => pp + cp <= MinObjs /\ MsgSize > L
 BoundedSends == sends <= 4 * (Len(pods) + Len(ctrs)) + 4
-Terminates == <>(pc \in {"ok", "fail"})
+Terminates == <>(pc \in {"ok", "fail"} /\ emitted)
 
 =============================================================================
